@@ -17,7 +17,7 @@ class Variant:
         self.mod = importlib.import_module(f"{DEP}.{modname}")
         self.cls = getattr(self.mod, clsname)
 
-    def make(self, transport, client_headers=None, **kw):
+    def make(self, transport, client_headers=None, url=None, **kw):
         import httpx
 
         if self.is_async:
@@ -30,7 +30,7 @@ class Variant:
             kw["tracer"] = RecTracer()
         elif self.tracer:
             kw["tracer"] = _tracer()
-        return self.cls(url=URL, http_client=http, **kw)
+        return self.cls(url=url or URL, http_client=http, **kw)
 
 
 def _tracer():
